@@ -49,6 +49,7 @@ REQUIRED = [
     "empty_payloads",
     "datagrams_sent_checked",
     "datagrams_received_checked",
+    "big_datagrams_received",
 ]
 WATCHDOG = {"quick": 900, "thorough": 7200}
 
@@ -316,6 +317,86 @@ def run_async(ctx, cfg: gen.Config, rng: random.Random, client: bool) -> str | N
 KINDS = ["protocol", "sync-endpoint", "async-endpoint-mem", "sync-udp-client", "async-udp-client"]
 
 
+def run_big_datagrams(ctx, rng: random.Random) -> str | None:
+    """datagrams at and just below / above the classic size limits (65507 = IPv4 UDP maximum, 65527 = IPv6 UDP maximum, 65536), over the
+    families that can carry them (IPv6 loopback, AF_UNIX datagram socketpair), received through the blocking endpoint and UDP client:
+    one datagram in, exactly that payload out"""
+    from easynetwork.clients.udp import UDPNetworkClient
+    from easynetwork.protocol import DatagramProtocol
+    from easynetwork.serializers.abc import AbstractPacketSerializer
+
+    class Raw(AbstractPacketSerializer[bytes, bytes]):
+        def serialize(self, packet: bytes) -> bytes:
+            return bytes(packet)
+
+        def deserialize(self, data: bytes) -> bytes:
+            return bytes(data)
+
+    proto = DatagramProtocol(Raw())
+    sizes = [65506, 65507, 65508, 65527]
+    pairs: list = []
+    if socket.has_ipv6:
+        try:
+            a6 = socket.socket(socket.AF_INET6, socket.SOCK_DGRAM)
+            b6 = socket.socket(socket.AF_INET6, socket.SOCK_DGRAM)
+            a6.bind(("::1", 0))
+            b6.bind(("::1", 0))
+            a6.connect(b6.getsockname())
+            b6.connect(a6.getsockname())
+            pairs.append(("ipv6", a6, b6, sizes))
+        except OSError:
+            pass
+    try:
+        au, bu = socket.socketpair(socket.AF_UNIX, socket.SOCK_DGRAM)
+        pairs.append(("unix", au, bu, sizes + [65535, 65536]))  # up to the documented receive buffer (64 KiB); larger is outside UDP
+    except OSError:
+        pass
+    why = None
+    for fam, a, b, szs in pairs:
+        for sk in (a, b):
+            try:
+                sk.setsockopt(socket.SOL_SOCKET, socket.SO_SNDBUF, 1 << 20)
+                sk.setsockopt(socket.SOL_SOCKET, socket.SO_RCVBUF, 1 << 20)
+            except OSError:
+                pass
+        use_client = fam == "ipv6" and rng.random() < 0.5
+        try:
+            ep: Any = UDPNetworkClient(a, proto) if use_client else DatagramEndpoint(SocketDatagramTransport(a, retry_interval=1.0), proto)
+        except Exception as exc:  # noqa: BLE001
+            a.close()
+            b.close()
+            return f"cannot build a blocking endpoint over a {fam} datagram socket: {type(exc).__name__}: {exc}"
+        try:
+            for n in szs:
+                payload = bytes((i * 31 + n) % 251 for i in range(n))
+                try:
+                    b.send(payload)
+                except OSError:
+                    continue  # this family / kernel does not carry that size: not the library's doing
+                ctx.count("big_datagrams_received")
+                got = ep.recv_packet(timeout=5)
+                if got != payload and why is None:
+                    why = f"{fam}: a datagram of {n} bytes was received as {len(got)} bytes" + ("" if payload.startswith(got) else " (not even a prefix)")
+                # and back out through the sender side
+                try:
+                    ep.send_packet(payload, timeout=5)
+                    echoed = b.recv(1 << 17)
+                    if echoed != payload and why is None:
+                        why = f"{fam}: send_packet of {n} bytes put {len(echoed)} bytes on the wire"
+                except OSError:
+                    pass
+        except Exception as exc:  # noqa: BLE001
+            if why is None:
+                why = f"{fam}: {type(exc).__name__}: {exc}"
+        finally:
+            try:
+                ep.close()
+            except Exception:  # noqa: BLE001
+                pass
+            b.close()
+    return why
+
+
 def plan(tier: str, seed: int) -> list[dict]:
     n = 3 if tier == "quick" else 400
     return [{"seed": seed * 1000 + k, "iters": n} for k in range(16)]
@@ -356,6 +437,11 @@ def run_shard(params: dict, ctx) -> None:
                         cat = "carry-over" if "carried over" in why else "count" if "produced" in why or "results came out" in why or "extra packet" in why else "payload"
                         key = f"{cat}:{kind}:{cfg.name.split('-')[0]}"
                     ctx.violation(key, f"[{kind}/{cfg.name}] {why}", {"config": cfg.name, "kind": kind, "seed": params["seed"], "it": it})
+    ctx.count("kind:big-datagrams")
+    why = run_big_datagrams(ctx, rng)
+    ctx.case(True, "big-datagrams", params["seed"])
+    if why:
+        ctx.violation("payload:big-datagram", f"[big datagrams] {why}", {"kind": "big-datagrams", "seed": params["seed"], "it": 0, "config": None})
     ctx.sample({"kinds": KINDS, "configs": len(cfgs), "sequence": "1..8 datagrams: valid | random | truncated+tail | concatenated | +1 byte | empty"})
 
 
